@@ -233,6 +233,15 @@ Section Inst.
     f_equal. apply IH. exact H2.
   Qed.
 
+
+  Lemma misordered_dropped_only : forall year s,
+    (misordered year s = true <->
+       exists d, (effective_from year s <= d <= effective_to year s /\ In (weekday d) (s_days s))
+                 /\ arr_utc s d < dep_utc s d)
+    /\ (misordered year s = false ->
+        schedule year s = map (instance s) (expand (effective_from year s) (effective_to year s) (s_days s))).
+  Proof. intros. split; [apply misordered_iff | apply schedule_all_when_ordered]. Qed.
+
   (* ----------------------------------------------------------------------- *)
   (* the importer                                                              *)
   (* ----------------------------------------------------------------------- *)
@@ -368,6 +377,14 @@ Section Inst.
       + assert (Hz : distance_verdict (gc_distance geod fl o d) (miles * miles_to_mm) = DSuspicious)
           by (apply distance_verdict_suspicious; exact H). congruence.
   Qed.
+
+
+  Lemma skip_iff_documented_reason : forall fl excl year r ko kd o d miles s,
+    ((exists k, import_row fl excl year r ko kd o d miles s = Skipped k)
+     <-> (exists k, reason_holds fl excl r ko kd o d miles k))
+    /\ (forall k, import_row fl excl year r ko kd o d miles s = Skipped k ->
+                  reason_holds fl excl r ko kd o d miles k).
+  Proof. intros. split; [apply skipped_iff_reason | intros k; apply skipped_reason_holds]. Qed.
 
   (* a row none of whose reasons holds is imported (specification) *)
   Lemma plausible_imported : forall excl year r o d miles s g,
